@@ -9,6 +9,7 @@ import (
 	"encoding/json"
 	"fmt"
 	"os"
+	"runtime/debug"
 	"sort"
 
 	"github.com/internetarchive/Zeno/internal/verif/vrt/hkit"
@@ -19,16 +20,16 @@ const propID = "C19"
 func spaces(tier, only string) []space {
 	thorough := tier == "thorough"
 	// json: every shape of nesting depth <= 2 with 1..3 URLs, all styles and hop settings.
-	// json-deep: shapes of depth exactly 3; quick: one URL and no filler leaves;
-	// thorough: all with 1..2 URLs, at the hop setting that allows outlinks.
+	// json-deep: shapes of depth exactly 3; quick: one URL and no filler leaf;
+	// thorough: 1..2 URLs and at most one filler leaf.
 	shallow := sortShapes(jshapes(2, 3))
 	var deep []*jnode
-	deepHops := []int{0, 1, 2}
+	deepURLs, deepFillers := 1, 0
 	if thorough {
-		deepHops = []int{0}
+		deepURLs, deepFillers = 2, 1
 	}
-	for _, n := range jshapes(3, map[bool]int{false: 1, true: 2}[thorough]) {
-		if n.depth() == 3 && (thorough || n.fillers() == 0) {
+	for _, n := range jshapes(3, deepURLs) {
+		if n.depth() == 3 && n.fillers() <= deepFillers {
 			deep = append(deep, n)
 		}
 	}
@@ -36,7 +37,7 @@ func spaces(tier, only string) []space {
 	if thorough {
 		keys, pages, masterLen = []string{"a", "b/c", "b/d", "b/e/f", "b/e/g", "c/h", "z"}, []int{1000, 4, 3, 2, 1}, 5
 	}
-	all := []space{newJSONSpace("json", shallow, []int{0, 1, 2}), newJSONSpace("json-deep", sortShapes(deep), deepHops),
+	all := []space{newJSONSpace("json", shallow, []int{0, 1, 2}), newJSONSpace("json-deep", sortShapes(deep), []int{0, 1, 2}),
 		newXMLSpace(), newMediaSpace(), newMasterSpace(masterLen), newS3Space(keys, pages)}
 	if only == "" {
 		return all
@@ -52,13 +53,14 @@ func spaces(tier, only string) []space {
 
 func main() {
 	a := hkit.ParseArgs()
-	defer os.RemoveAll(tmpDir)
 	if a.Replay != "" {
 		replay(a.Replay)
 		return
 	}
 	sps := spaces(a.Tier, a.Extra["only"])
 	if a.Of > 1 {
+		// spooledtempfile recycles its 64 KB buffers through a sync.Pool, which every GC cycle empties
+		debug.SetGCPercent(1000)
 		hkit.EmitShardResult(explore(sps, a.Shard, a.Of))
 		os.RemoveAll(tmpDir)
 		return
